@@ -113,6 +113,21 @@ def ref_if(c, a, b):
         return sym_if(c, a, b)
     if a is b:
         return a
+    if isinstance(a, SArr) and isinstance(b, SArr) and a.ndim == b.ndim:
+        # read-only merge of two arrays (e.g. list elements selected by a symbolic index)
+        sa, sb = a._snapshot(), b._snapshot()
+        return SArr(tuple(sym_if(c, x, y) for x, y in zip(a.shape, b.shape)), lambda idx: sym_if(c, sa(idx), sb(idx)),
+                    a.dtype if a.dtype == b.dtype else 'real')
+    if hasattr(a, 'fields') and hasattr(b, 'fields') and type(a) is type(b) and getattr(a, 'cls', None) is getattr(b, 'cls', None) \
+            and getattr(a, 'tag', None) == getattr(b, 'tag', None) and set(a.fields) == set(b.fields):
+        r = type(a)(a.cls, {k: ref_if(c, a.fields[k], b.fields[k]) for k in a.fields}, tag=a.tag)
+        return r
+    if isinstance(a, (tuple, list)) and isinstance(b, (tuple, list)) and len(a) == len(b) and type(a) is type(b):
+        return type(a)(ref_if(c, x, y) for x, y in zip(a, b))
+    if isinstance(a, str) and isinstance(b, str) and a == b:
+        return a
+    if isinstance(a, dict) and isinstance(b, dict) and set(a) == set(b):
+        return {k: ref_if(c, a[k], b[k]) for k in a}
     raise Unsupported(f"conditional over values {a!r} / {b!r}")
 
 
